@@ -101,13 +101,14 @@ func (s *socket) RecvMsg() (*protocol.Message, error) {
 	// For now this uses a simple unified queue for the entire
 	// socket.  Later we can look at moving this to priority queues
 	// based on socket pipes.
+	tq := nilQ
 	for {
 		s.Lock()
 		rq := s.recvQ
 		cq := s.closeQ
 		zq := s.sizeQ
-		tq := nilQ
-		if s.recvExpire > 0 {
+		if s.recvExpire > 0 && tq == nil {
+			// armed once: a queue resize must not restart the deadline
 			tq = time.After(s.recvExpire)
 		}
 		s.Unlock()
